@@ -71,6 +71,18 @@ def _cases_core(rng, tier):
         yield "path_parse " + sx(s), branch
         if rng.random() < 0.3:
             yield "w_bypath xkey:%s %s" % (sx(XPRV), sx(s)), branch + "-bypath"
+    # a valid path (and each of its components) with one line terminator / blank / control / invisible character in
+    # front of it or behind it
+    for good in ("m/44'/0'/0'/0/7", "M/0/1", "m/1h", "m"):
+        for bad in common.edge_variants(good):
+            yield "path_parse " + sx(bad), "edge-character"
+        if tier == "thorough" or good == "M/0/1":
+            for bad in common.edge_variants(good):
+                yield "w_bypath xkey:%s %s" % (sx(XPRV if good[0] == "m" else XPUB), sx(bad)), "edge-character-bypath"
+    parts_ = "m/44'/1/2h".split("/")
+    for j_ in range(1, len(parts_)):
+        for bad_c in common.edge_variants(parts_[j_]):
+            yield "path_parse " + sx("/".join(parts_[:j_] + [bad_c] + parts_[j_ + 1:])), "edge-character-component"
     # deep paths (K1)
     for depth in range(6, 13):
         for _ in range(3 if tier == "quick" else 40):
